@@ -29,6 +29,9 @@ class XPath31Parser(XPath30Parser):
         **XPath30Parser.DEFAULT_NAMESPACES
     }
 
+    # A unary lookup is a primary expression, so it can be a step of a path: a/?key
+    PATH_STEP_SYMBOLS = XPath30Parser.PATH_STEP_SYMBOLS | {'?'}
+
     # https://www.w3.org/TR/xpath-31/#id-reserved-fn-names
     RESERVED_FUNCTION_NAMES = {
         'array', 'attribute', 'comment', 'document-node', 'element', 'empty-sequence',
